@@ -119,8 +119,7 @@ class Engine:
         nb_of_processes = self.configuration.nb_of_processes
 
         if nb_of_processes == 1:
-            # single process version
-            self.configuration.initialisation_seed()
+            # single process version (the seed is set once, at the start of the pricing)
             for iteration in range(extra_mc_paths):
                 simulated_path = simulation_path()
                 path_manager.set_to_path(simulated_path)
@@ -161,6 +160,10 @@ class Engine:
         :param product: product to price
         :param rmse: root-mean square error
         """
+        if self.configuration.nb_of_processes == 1:
+            # set the seed once and before the pre-computations: re-seeding at each level and pass would make all the
+            # levels and passes use the same random numbers
+            self.configuration.initialisation_seed()
         self.initialisation(product)
 
         for path_manager in self.path_managers:
@@ -305,6 +308,8 @@ class Engine:
         """
         mc_paths = self.configuration.initial_mc_paths
         max_level = self.configuration.maximum_level
+        if self.configuration.nb_of_processes == 1:
+            self.configuration.initialisation_seed()
         self.initialisation(product)
         for path_manager in self.path_managers:
             path_manager.update(
